@@ -351,6 +351,30 @@ def main():
                    "seed_found": sorted({ids[h] for h in seed_found if h in ids}),
                    "layout": {k: sc.get(k) for k in ("src", "prior", "seeds")}, "nseeds": len(seeds), "stdin_seed": stdin_i}
 
+        said = {"text": ""}
+
+        def account():
+            """the numbers bita itself reports (log lines), for the accounting rules of CloneL2Trace.tla; nothing is judged here"""
+            def nbytes(v):
+                m = re.search(r"\((\d+) bytes\)", v) or re.search(r"(\d+) bytes", v)
+                return int(m.group(1)) if m else -1
+            acct = {"ok": False, "used_self": -1, "used_seeds": [], "fetched_stored": -1, "decompressed": -1, "final_archive": -1, "final_seeds": -1}
+            for ln in said["text"].splitlines():
+                m = re.search(r"Used (.*) from (.*)$", ln)
+                if m:
+                    if m.group(2).strip() in (out, os.path.basename(out)):
+                        acct["used_self"] = nbytes(m.group(1))
+                    else:
+                        acct["used_seeds"].append(nbytes(m.group(1)))
+                m = re.search(r"Fetched (.*) from archive and decompressed to (.*)\.", ln)
+                if m:
+                    acct["fetched_stored"], acct["decompressed"] = nbytes(m.group(1)), nbytes(m.group(2))
+                m = re.search(r"Successfully cloned archive using (.*) from archive and (.*) from seeds", ln)
+                if m:
+                    acct["final_archive"], acct["final_seeds"] = nbytes(m.group(1)), nbytes(m.group(2))
+                    acct["ok"] = True
+            return acct
+
         def run_once(fault=None):
             if prior or kind != "new":
                 pass
@@ -369,6 +393,7 @@ def main():
                 p = subprocess.run(cmd, env=e, cwd=dd, input=stdin_data if stdin_data is not None else b"", stdout=subprocess.PIPE, stderr=subprocess.PIPE, timeout=120)
                 code = p.returncode
                 msg = (p.stderr.decode(errors="replace").strip().splitlines() or [""])[-1][:160]
+                said["text"] = p.stdout.decode(errors="replace") + "\n" + p.stderr.decode(errors="replace")
             except subprocess.TimeoutExpired:
                 code, msg = 124, "timeout"
             if fault:
@@ -390,7 +415,8 @@ def main():
 
         def after_ev(code, msg):
             data = open(out, "rb").read() if os.path.exists(out) else b""
-            return {"ev": "after", "exit": code, "msg": msg, "out_len": len(data), "out_eq_src": data == source, "out_prefix_eq_src": data[:len(source)] == source and len(data) >= len(source)}
+            return {"ev": "after", "exit": code, "msg": msg, "out_len": len(data), "out_eq_src": data == source, "out_prefix_eq_src": data[:len(source)] == source and len(data) >= len(source),
+                    "acct": account()}
 
         if a.mode == "bulk":
             if prior and kind != "new":
